@@ -463,7 +463,7 @@ func machineTrace(rc *runCfg, m *merged) error {
 		for _, f := range files {
 			b := filepath.Base(f)
 			var k int
-			if b == "assign-z1.bin" || b == "assign-z2.bin" {
+			if b == "assign-z1.bin" || b == "assign-z2.bin" || b == "assign-z3.bin" {
 				sub = append(sub, f)
 			} else if _, err := fmt.Sscanf(b, "assign-%d.bin", &k); err == nil && k < 24 {
 				sub = append(sub, f)
@@ -629,7 +629,7 @@ func machineCompare(rc *runCfg, m *merged, dir string, names []string, files []s
 	}
 	sort.Strings(assignNames)
 	for _, an := range assignNames {
-		if an == "0" || an == "z1" || an == "z2" {
+		if an == "0" || an == "z1" || an == "z2" || an == "z3" {
 			continue
 		}
 		for op := range names {
@@ -700,6 +700,38 @@ func machineCompare(rc *runCfg, m *merged, dir string, names []string, files []s
 		}
 		m.extra[label+": entry points where the K1 witness (literal-zero X) diverges from the reference"] = k1div
 		m.extra[label+": of those, re-traced and attributed to checkInitialized"] = k1seen
+	}
+	// second witness class of K1 (zero lowest X limb): against the reference, the first
+	// divergence must lie in checkInitialized
+	if z3, ok := by["z3"]; ok {
+		seen, div := 0, 0
+		for op := range names {
+			nCompared++
+			m.evaluations++
+			if ok, chunk := same(ref[op], z3[op]); !ok {
+				div++
+				if seen >= 2 {
+					continue // the same finding: already attributed on two entry points
+				}
+				var det map[string]any
+				if chunk == 0 && len(ref[op].Head) > 0 && len(z3[op].Head) > 0 {
+					det = diffDumps("0", "z3", op, 0, ref[op].Head, z3[op].Head)
+				} else {
+					det = investigate("0", "z3", op, chunk)
+				}
+				if det == nil {
+					continue
+				}
+				v := mon.Violation{Case: -1, Kind: "machine-level trace differs for a point whose X has a zero lowest limb", Detail: det, Site: fmt.Sprint(det["symbol"])}
+				if det["in-checkInitialized"] == true {
+					v.Site, v.Class = "checkInitialized", "point-input-with-zero-low-X-limb"
+					seen++
+				}
+				m.violations = append(m.violations, taggedViolation{Violation: v, Config: cfgName, Mode: "machine-trace"})
+			}
+		}
+		m.extra[label+": entry points where the zero-low-X-limb witness diverges from the reference"] = div
+		m.extra[label+": of those, attributed to checkInitialized"] = seen
 	}
 	m.extra[label+": (assignment, entry point) trace comparisons"] = nCompared
 	m.extra[label+": assignments traced"] = len(by)
